@@ -97,7 +97,12 @@ impl AffiliatePortfolioSecurityStatuses {
             af.name(),
             v.total_acb
         );
-        assert_eq!(*v.all_affiliate_share_balance, expected_all_share_bal,
+        // Decimal arithmetic rounds past 28 significant digits, so the two ways of
+        // arriving at the balance can differ in the last places (eg. 10 shares
+        // after a 1.0-for-3.0 split). Only a real discrepancy is a bug.
+        let all_share_bal_diff =
+            (*v.all_affiliate_share_balance - expected_all_share_bal).abs();
+        assert!(all_share_bal_diff <= rust_decimal::Decimal::new(1, 15),
             "In security {}, af {}, v.all_affiliate_share_balance ({}) != expected_all_share_bal ({}) \
             (*v.share_balance ({}) + *self.latest_all_affiliates_share_balance ({}) - *last_share_balance ({})",
             self.security, af.name(), v.all_affiliate_share_balance, expected_all_share_bal,
